@@ -411,3 +411,32 @@ Proof.
   - specialize (Hr _ _ L1'). lia.
   - auto.
 Qed.
+
+(** * staticfs construction establishes [stored_ok] (the hypothesis of the Readdir/Walk/GetAttr theorem) *)
+Lemma static_new_spec names : forall s g i fs qs s',
+  static_new s g i names = (fs, qs, s') ->
+  extends s s' /\ map fst fs = names /\ map fst qs = names /\
+  forall n f, In (n, f) fs -> NoDup names -> resolves s' (f_chain f) (f_base f) (stored_of qs n).
+Proof.
+  induction names as [|n0 names IH]; intros s g i fs qs s' H; cbn [static_new] in H.
+  - inversion H; subst. split; [apply extends_refl|]. repeat split; auto. intros ? ? [].
+  - destruct (getattr s (static_file g i)) as [q s1] eqn:E.
+    destruct (static_new s1 g (S i) names) as [[fs' qs'] s2] eqn:E2. inversion H; subst.
+    destruct (IH _ _ _ _ _ _ E2) as (Hx & Hf & Hq & Hall).
+    split; [eapply extends_trans; [eapply apply_chain_extends; exact E|exact Hx]|].
+    split; [cbn; now rewrite Hf|]. split; [cbn; now rewrite Hq|].
+    intros n f Hin Hnd. apply NoDup_cons_iff in Hnd as (Hni & Hnd'). unfold stored_of. cbn [assoc].
+    destruct Hin as [Heq|Hin].
+    + inversion Heq; subst. rewrite String.eqb_refl. eapply apply_chain_resolved; [exact E|exact Hx].
+    + destruct (String.eqb_spec n n0) as [->|Hne].
+      * exfalso. apply Hni. rewrite <- Hf. change n0 with (fst (n0, f)). now apply in_map.
+      * now apply Hall.
+Qed.
+
+Theorem static_new_stored_ok s g names fs qs s' w :
+  static_new s g 0 names = (fs, qs, s') -> NoDup names ->
+  stored_ok s' (mkDir fs (Some (stored_of qs)) w) /\ NoDup (map fst (d_ents (mkDir fs (Some (stored_of qs)) w))).
+Proof.
+  intros H Hnd. destruct (static_new_spec _ _ _ _ _ _ _ H) as (_ & Hf & _ & Hall).
+  split; [|cbn; now rewrite Hf]. unfold stored_ok. cbn. intros n f Hin. now apply Hall.
+Qed.
